@@ -719,10 +719,23 @@ def _from_list(lst, dt=None):
     if lst and builtins.all(isinstance(x, (list, tuple, ndarray)) for x in lst):
         subs = [asarray(x) for x in lst]
         first = subs[0]
+        kind0, elem0 = first.kind, first.elem
         for s in subs[1:]:
             if s.ndim != first.ndim:
                 raise OutOfSubset("ragged nested list")
+            # NumPy >= 1.24 refuses an inhomogeneous (ragged) list of arrays with ValueError
+            for d in range(first.ndim):
+                if s._shape[d] is not first._shape[d] and not (conc(s._shape[d]) is not None and conc(s._shape[d]) == conc(first._shape[d])):
+                    if not ctx().decide(zint(s._shape[d]) == zint(first._shape[d]), "np.array of arrays: extents equal"):
+                        raise ValueError("setting an array element with a sequence. The requested array has an inhomogeneous shape")
+            if s.kind != kind0:
+                if {s.kind, kind0} <= {"i", "f"}:
+                    kind0, elem0 = "f", "real"
+                else:
+                    raise OutOfSubset("np.array of arrays of kinds %s and %s" % (kind0, s.kind))
         fns = [s.snapshot() for s in subs]
+        if elem0 == "real":
+            fns = [(lambda *i, f=f: sym._toreal(f(*i)) if z3.is_expr(f(*i)) and z3.is_int(f(*i)) else f(*i)) for f in fns]
         def fn(i, *rest):
             ci = conc(i)
             if ci is not None:
@@ -731,7 +744,7 @@ def _from_list(lst, dt=None):
             for k in range(len(fns) - 2, -1, -1):
                 t = z3.If(zint(i) == k, fns[k](*rest), t)
             return t
-        return ndarray.from_fn(fn, (len(lst),) + first._shape, first.kind, first.elem)
+        return ndarray.from_fn(fn, (len(lst),) + first._shape, kind0, elem0)
     kind, elem = _infer(lst)
     if dt is not None:
         kind = _kind_of_spec(dt)
